@@ -87,6 +87,16 @@ CLAIMS = {
         note=NOTE_COMMON + "Single-character punctuation delimiters not occurring in the header's own values.",
         technique="Lean 4 proof (case analysis; split/join lemmas) + differential correspondence on API-built messages",
         design="DESIGN.md §5 C07"),
+    'C16': dict(
+        text="Proved on the model of MLLPRequestHandler.handle (event script -> invocations, reply, closed): the outcome depends only on the concatenated bytes for EVERY "
+             "splitting into TCP writes (any number of chunks, empty ones included; induction + the lemma that the initial recv(3) cannot straddle a frame end); to_mllp "
+             "frames are extracted exactly; registered type -> that handler once, unregistered -> ERR with UnsupportedMessageType, non-HL7 -> ERR with InvalidHL7Message, "
+             "no ERR handler -> nothing; input not starting with SB or timing out invokes nothing; every outcome closes. Tied to /repo by a scripted fake socket driving "
+             "the real handler (all <=3-way splittings, random <=8-way, stall/EOF after every prefix, malformed frames) and supported by a real-socket run with "
+             "concurrent clients. PARTIAL for simultaneous clients: ThreadingTCPServer, sockets and real-time timeouts are runtime behaviour the model cannot exhibit.",
+        note=NOTE_COMMON + "Handlers are deterministic functions of the message; the handlers map is read-only (checked in the real-socket run).",
+        technique="Lean 4 proof (induction over chunk lists with a well-founded read loop) + differential correspondence through a scripted socket",
+        design="DESIGN.md §5 C16"),
 }
 
 PENDING = {}
